@@ -237,7 +237,7 @@ Definition is_scalar (v : gval) : bool :=
 Definition is_str (v : gval) : bool := match v with VStr _ => true | _ => false end.
 
 (* a scalar that means the same before and after: an integer of magnitude <= 2^53; a finite float64; a
-   finite float32 of magnitude < 2^24; a string; a json.Number holding the canonical decimal text of an
+   finite float32 of magnitude < 2^24; a string that is valid UTF-8; a json.Number holding the canonical decimal text of an
    integer of magnitude <= 2^53.  Anything that is not a scalar only has to be encodable. *)
 Definition elem_safe (e : gval) : bool :=
   match e with
@@ -245,7 +245,7 @@ Definition elem_safe (e : gval) : bool :=
   | VFloat is32 f => match f_cls f with
                      | FFinite => negb is32 || (Z.abs (f_ip f) <? two24)
                      | _ => false end
-  | VStr _ => true
+  | VStr s => valid_text s      (* encoding/json replaces the bytes of a string that are not valid UTF-8 *)
   | VJson s => match canonical_int_text s with Some z => Z.abs z <=? two53 | None => false end
   | _ => rt_ok e
   end.
